@@ -32,6 +32,7 @@ ROPE_API = {
 SAME_UNIT = re.compile(r"^std::cmp::Ord::(min|max)$|^core::num::<impl usize>::(saturating_add|saturating_sub|min|max|wrapping_add|wrapping_sub)$|"
                        r"^core::num::<impl u32>::(saturating_add|saturating_sub)$|^std::cmp::(min|max)$")
 CONV = re.compile(r"Into<.*>>::into$|From<.*>>::from$|TryFrom<.*>>::try_from$|TryInto<.*>>::try_into$|"
+                  r"TryFrom<[^<>]*> for [^<>]*>::try_from$|From<[^<>]*> for [^<>]*>::from$|"
                   r"Result::<T, E>::(expect|unwrap)$|^<T as std::convert::(Into|TryInto)<U>>::(try_)?into$")
 
 
@@ -66,11 +67,12 @@ class Units:
                 units.add(self.call(d[2]))
             else:
                 units.add(self.rvalue(d[3]))
+        unknown = "?" in units
         units.discard("?")
         units.discard("const")
         if len(units) > 1:
             self.problems.append("local _%d (%s) mixes units %s" % (l, self.b.local_name(l), sorted(units)))
-        u = next(iter(units)) if len(units) == 1 else ("const" if not units else "mixed")
+        u = next(iter(units)) if len(units) == 1 else (("?" if unknown else "const") if not units else "mixed")
         self.memo[l] = u
         return u
 
@@ -91,6 +93,15 @@ class Units:
             return "?"
         if "ref" in rv:
             return self.local(rv["ref"]["l"]) if not rv["ref"]["p"] else "?"
+        if "agg" in rv:
+            # `Some(line)` / a one-unit tuple carries the unit of its payload (helpers returning Option<usize>)
+            us = {self.op(o) for o in rv.get("ops", [])}
+            known = us - {"const", "?"}
+            if len(known) == 1:
+                return next(iter(known))
+            if not known:
+                return "?" if "?" in us else "const"
+            return "?"
         return "?"
 
     def call(self, t):
@@ -180,7 +191,7 @@ def run(ck, prog):
         name = b.path.rsplit("::", 1)[-1]
         if name in LI_RESULT:
             got = u.local(0)
-            ck.ob("R10.1", "result:%s" % name, got in (LI_RESULT[name], "?") or (got == "const"),
+            ck.ob("R10.1", "result:%s" % name, got in (LI_RESULT[name], "const"),
                   "%s returns %s" % (name, got),
                   msg="LineIndex::%s returns a value in %s, expected %s" % (name, got, LI_RESULT[name]))
         # every integer local is evaluated, so that arithmetic whose result only flows on through conversions
